@@ -5,7 +5,7 @@ Line-protocol driver for the engine model (C01, C03, C06, C07, C08).
   session W…              → "Fresh Updated … |[ execs…| X]"
   round K…                → "v1 v2 … |[ execs…| X]"
 Arguments: toggle names (f1 f3 f14 f31 f32) switch the model from as-is to repaired behaviour;
-`nof2` / `nof16` switch it back to the code before the fixes of F2 / F16 (historical); `desc` / `tape=1,0,2` choose the order of the two hash-set walks (Toggles.desc, .tape);
+`nof2` / `nof16` / `nof33` switch it back to the code before the fixes of F2 / F16 / F33 (historical); `desc` / `tape=1,0,2` choose the order of the two hash-set walks (Toggles.desc, .tape);
 `msg` appends the model's error message to crash lines;
 `core` runs the core model (QbiceVerif.Model.EngineCore) instead, answering "skip" for cases
 outside its fragment (input / normal / external nodes, ordered reads and unordered groups, `set` /
@@ -286,5 +286,5 @@ def main (args : List String) : IO Unit := do
   let tape : List Nat := match args.find? (·.startsWith "tape=") with
     | some a => ((a.drop 5).toString.splitOn ",").filterMap String.toNat?
     | none => []
-  let t : Toggles := { tape := tape, f1 := args.contains "f1", f2 := !args.contains "nof2", f3 := args.contains "f3", f14 := args.contains "f14", f16 := !args.contains "nof16", f31 := args.contains "f31", f32 := args.contains "f32", desc := args.contains "desc" }
+  let t : Toggles := { tape := tape, f1 := args.contains "f1", f2 := !args.contains "nof2", f3 := args.contains "f3", f14 := args.contains "f14", f16 := !args.contains "nof16", f33 := !args.contains "nof33", f31 := args.contains "f31", f32 := args.contains "f32", desc := args.contains "desc" }
   loop (← IO.getStdin) (← IO.getStdout) (args.contains "core") (args.contains "cyc") (args.contains "msg") t {}
